@@ -71,6 +71,16 @@ def run(ctx):
     code = s.ret()
     if code == T.call("numpy.sign", (area_call,)):      # same value without the int() conversion
         code = spec
+    # the sign of an area is scale free (degree 0 of a degree-2 quantity); a tolerance test against an absolute constant is not:
+    # np.isclose(area, 0) is |area| <= 1e-8, an L^2 quantity compared with a pure number
+    tol = [e for e in s.calls() if e.fname in ("numpy.isclose", "numpy.allclose", "numpy.round", "round", "numpy.around")
+           and e.args and any(x == area_call or (x[0] == "call" and x[1] == f"{CELL}.get_area") for a_ in e.args for x in T.subterms(a_))]
+    for e in tol:
+        ctx.violation("DIM", f"{f.qualname} / DIM / the orientation is decided by an exact comparison with 0", ctx.where(f, e.node),
+                      f"`{f.module.line(e.node.lineno)[:70]}` applies an absolute tolerance (or a rounding) to the area, a quantity of dimension length^2: cells whose area is "
+                      f"below the tolerance in the chosen unit of length (1e-8 by default) lose their orientation, and with it next / previous vertex and the perimeter")
+    if not tol:
+        ctx.ok("DIM", f"{f.qualname} / DIM / the orientation is decided by an exact comparison with 0", ctx.where(f), "no tolerance or rounding is applied to the area")
     rules.decide_equal(ctx, "FORM", f"{f.qualname} / FORM / sign(area)", ctx.where(f), code, spec, "area sign")
 
     # ---- perimeter
